@@ -144,6 +144,12 @@ Proof.
   induction ns as [|x t IH]; [reflexivity|]. cbn [map existsb]. rewrite py_eq_str, IH. reflexivity.
 Qed.
 
+Lemma py_in_dyn_strs_tuple n ns : py_in_dyn (PStr n) (PTuple (map PStr ns)) = Ok (str_in n ns).
+Proof.
+  cbn [py_in_dyn]. unfold py_in_lit, py_in, str_in. f_equal.
+  induction ns as [|x t IH]; [reflexivity|]. cbn [map existsb]. rewrite py_eq_str, IH. reflexivity.
+Qed.
+
 Lemma py_unpack_pair a b : py_unpack 2 false (PTuple [a; b]) = Ok [a; b].
 Proof. reflexivity. Qed.
 
@@ -158,6 +164,18 @@ Proof.
   induction l as [|x t IH]; intros H acc; [reflexivity|].
   cbn [map py_foldM fold_left]. rewrite (H acc x (or_introl eq_refl)). cbn [bind].
   apply IH. intros acc' a Ha. apply H. right. exact Ha.
+Qed.
+
+(* a filtered list comprehension [g a for a in l if p a], as the fold that appends *)
+Lemma foldM_list_filter {A} (item : A -> pyval) (f : pyval -> pyval -> res pyval) (p : A -> bool) (g : A -> pystr) l :
+  (forall acc a, In a l -> f (PList acc) (item a) = Ok (PList (if p a then acc ++ [PStr (g a)] else acc))) ->
+  forall acc, py_foldM f (map item l) (PList acc) = Ok (PList (acc ++ map PStr (map g (filter p l)))).
+Proof.
+  induction l as [|x t IH]; intros H acc.
+  - cbn [map py_foldM filter]. rewrite app_nil_r. reflexivity.
+  - cbn [map py_foldM filter]. rewrite (H acc x (or_introl eq_refl)). cbn [bind].
+    rewrite IH by (intros acc' a Ha; apply H; right; exact Ha).
+    destruct (p x); [|reflexivity]. cbn [map]. rewrite <- app_assoc. reflexivity.
 Qed.
 
 Lemma mapM_items {A} (item : A -> pyval) (f : pyval -> res pyval) (g : A -> pyval) l :
@@ -393,6 +411,16 @@ Section Cls.
     2:{ intros [k v] _. unfold sitem, param_text. cbn [fst snd]. rewrite py_unpack_pair. run.
         rewrite <- ?app_assoc. reflexivity. }
     run. rewrite getattr_additional. cbn [bind py_truthy]. unfold stub_kw.
+    (* classmethod_params: the comprehension filtered by the classmethods' own parameter names *)
+    rewrite (foldM_list_filter sitem _ (fun kv => negb (str_in (fst kv) classmethod_own)) param_text).
+    2:{ intros acc [k v] _. unfold sitem. cbn [fst snd]. rewrite py_unpack_pair. cbn [bind].
+        change (PTuple [PStr (s2p "cls"); PStr (s2p "source_object"); PStr (s2p "ignore_props")])
+          with (PTuple (map PStr classmethod_own)).
+        rewrite py_in_dyn_strs_tuple. unfold py_not. cbn [bind].
+        destruct (str_in k classmethod_own); cbn [negb]; [reflexivity|].
+        cbn [bind py_format py_list_append]. unfold param_text. cbn [fst snd].
+        rewrite <- ?app_assoc. reflexivity. }
+    cbn [app]. fold (classmethod_text (none_text l)).
     destruct (effective_additional apd_stub C); run; reflexivity.
   Qed.
 
@@ -504,6 +532,13 @@ Section Cls.
     unfold abs_entry. cbn [fst snd]. rewrite ends_none_with_none. reflexivity.
   Qed.
 
+  Theorem classmethod_text_abs : forall l, map abs_entry (classmethod_text l) = classmethod_kws (map abs_entry l).
+  Proof.
+    intro l. unfold classmethod_text, classmethod_kws. induction l as [|kv t IH]; [reflexivity|].
+    cbn [filter map]. change (fst (abs_entry kv)) with (fst kv).
+    destruct (negb (str_in (fst kv) classmethod_own)); cbn [map]; rewrite IH; reflexivity.
+  Qed.
+
   Lemma NoDup_map_filter {A B} (f : A -> B) (p : A -> bool) l : NoDup (map f l) -> NoDup (map f (filter p l)).
   Proof.
     induction l as [|x t IH]; intro H; [constructor|]. cbn [map] in H. inversion H as [|? ? Hn Hd]; subst.
@@ -553,11 +588,11 @@ Section Cls.
      oa <- get_ordered_args (hp C) ti ;;
      get_additional_structure_methods (hp C) (ref o_cls) oa (PBool apd_stub))
     = Ok (PStr (join_strs nl [def_render clone_head self_fixed kws kw;
-                              def_render other_head other_fixed kws kw;
-                              def_render trusted_head trusted_fixed kws kw]))
+                              def_render other_head other_fixed (classmethod_text kws) kw;
+                              def_render trusted_head trusted_fixed (classmethod_text kws) kw]))
     /\ abs_def self_fixed kws kw = stub_shallow_clone apd_run apd_stub C
-    /\ abs_def other_fixed kws kw = stub_from_other_class apd_run apd_stub C
-    /\ abs_def trusted_fixed kws kw = stub_from_trusted_data apd_run apd_stub C.
+    /\ abs_def other_fixed (classmethod_text kws) kw = stub_from_other_class apd_run apd_stub C
+    /\ abs_def trusted_fixed (classmethod_text kws) kw = stub_from_trusted_data apd_run apd_stub C.
   Proof.
     intros apd_stub C Hok kws kw. split.
     - rewrite (get_all_type_info_src_eq C Hok). cbn [bind].
@@ -565,7 +600,7 @@ Section Cls.
       rewrite get_additional_structure_methods_src_eq; [reflexivity|].
       apply ordered_text_nodup_names, type_info_text_nodup.
     - unfold abs_def, stub_shallow_clone, stub_from_other_class, stub_from_trusted_data, kws, kw.
-      rewrite none_text_abs, (stub_kws_abs C Hok). repeat split; reflexivity.
+      rewrite classmethod_text_abs, none_text_abs, (stub_kws_abs C Hok). repeat split; reflexivity.
   Qed.
 
   (* ---------------------------------------------------------------- outside the model's domain: no _required *)
